@@ -1001,4 +1001,1544 @@ theorem avg_small_nonvacuous : (intSum (nonNull [.int 7, .null, .int (-4), .int 
   refine ⟨by decide, by decide +kernel⟩
 
 
+section MinMax
+open Grafeo.F64
+/-! ### min / max -/
+
+/-- both folds pick the first minimum: the left fold that replaces its candidate only by a strictly
+smaller value, and the specification's right fold — for every relation that is transitive and
+negatively transitive on the values at hand -/
+theorem foldl_first_min {α : Type} (lt : α → α → Bool) (P : α → Prop)
+    (htr : ∀ a b c, P a → P b → P c → lt a b = true → lt b c = true → lt a c = true)
+    (hnt : ∀ a b c, P a → P b → P c → lt a c = true → lt a b = true ∨ lt b c = true)
+    (spec : List α → Option α)
+    (hnil : spec [] = none)
+    (hcons : ∀ v vs, spec (v :: vs) = match spec vs with
+      | none => some v
+      | some m => if lt m v then some m else some v)
+    (c : α) (l : List α) (hc : P c) (hl : ∀ x ∈ l, P x) :
+    (∃ m, spec l = some m ∧ P m ∧ l.foldl (fun cur v => if lt v cur then v else cur) c = (if lt m c then m else c)) ∨
+    (spec l = none ∧ l.foldl (fun cur v => if lt v cur then v else cur) c = c) := by
+  induction l generalizing c with
+  | nil => right; exact ⟨hnil, rfl⟩
+  | cons v vs ih =>
+    have hv : P v := hl v (by simp)
+    have hvs : ∀ x ∈ vs, P x := fun x hx => hl x (List.mem_cons_of_mem _ hx)
+    left
+    simp only [List.foldl_cons, hcons]
+    by_cases hvc : lt v c = true
+    · simp only [hvc, if_true]
+      rcases ih v hv hvs with ⟨m, hm, hPm, hf⟩ | ⟨hnone, hf⟩
+      · rw [hm, hf]
+        by_cases hmv : lt m v = true
+        · refine ⟨m, by simp [hmv], hPm, ?_⟩
+          simp [hmv, htr m v c hPm hv hc hmv hvc]
+        · refine ⟨v, by simp [hmv], hv, ?_⟩
+          simp [hmv, hvc]
+      · rw [hnone, hf]
+        exact ⟨v, rfl, hv, by simp [hvc]⟩
+    · simp only [hvc, Bool.false_eq_true, if_false]
+      rcases ih c hc hvs with ⟨m, hm, hPm, hf⟩ | ⟨hnone, hf⟩
+      · rw [hm, hf]
+        by_cases hmv : lt m v = true
+        · exact ⟨m, by simp [hmv], hPm, rfl⟩
+        · refine ⟨v, by simp [hmv], hv, ?_⟩
+          have hmc : ¬ lt m c = true := by
+            intro h
+            rcases hnt m v c hPm hv hc h with h1 | h1
+            · exact hmv h1
+            · exact hvc h1
+          simp [hmc, hvc]
+      · rw [hnone, hf]
+        exact ⟨v, rfl, hv, by simp [hvc]⟩
+
+/-- the exact value (times 2^1074) as a function of the magnitude bits -/
+def magScaled (m : Nat) : Nat :=
+  if m / 2 ^ 52 = 0 then m % 2 ^ 52 else (2 ^ 52 + m % 2 ^ 52) * 2 ^ (m / 2 ^ 52 - 1)
+
+theorem scaledMag_eq (b : Nat) : scaledMag b = magScaled (mag b) := by
+  unfold scaledMag magScaled expField fracField mag
+  have h1 : b / 2 ^ 52 % 2 ^ 11 = b % 2 ^ 63 / 2 ^ 52 := by omega
+  have h2 : b % 2 ^ 52 = b % 2 ^ 63 % 2 ^ 52 := by omega
+  rw [h1, ← h2]
+
+theorem magScaled_lt_top (m : Nat) : magScaled m < 2 ^ 52 * 2 ^ (m / 2 ^ 52) := by
+  unfold magScaled
+  have hF : m % 2 ^ 52 < 2 ^ 52 := Nat.mod_lt _ (Nat.two_pow_pos 52)
+  by_cases hE : m / 2 ^ 52 = 0
+  · simp only [hE, if_true, Nat.pow_zero, Nat.mul_one]; exact hF
+  · simp only [hE, if_false]
+    have hp : 2 ^ (m / 2 ^ 52) = 2 * 2 ^ (m / 2 ^ 52 - 1) := by
+      rw [← Nat.pow_succ']; congr 1; omega
+    rw [hp]
+    have : (2 ^ 52 + m % 2 ^ 52) * 2 ^ (m / 2 ^ 52 - 1) < (2 ^ 52 + 2 ^ 52) * 2 ^ (m / 2 ^ 52 - 1) :=
+      Nat.mul_lt_mul_of_lt_of_le (by omega) (Nat.le_refl _) (Nat.two_pow_pos _)
+    have e : (2 ^ 52 + 2 ^ 52) * 2 ^ (m / 2 ^ 52 - 1) = 2 ^ 52 * (2 * 2 ^ (m / 2 ^ 52 - 1)) := by
+      rw [← Nat.mul_assoc]
+    omega
+
+theorem magScaled_ge_bottom (m : Nat) (hE : m / 2 ^ 52 ≠ 0) : 2 ^ 52 * 2 ^ (m / 2 ^ 52 - 1) ≤ magScaled m := by
+  unfold magScaled
+  simp only [hE, if_false]
+  exact Nat.mul_le_mul_right _ (by omega)
+
+/-- F: the value of a double grows strictly with its magnitude bits -/
+theorem magScaled_strictMono (m m' : Nat) (h : m < m') : magScaled m < magScaled m' := by
+  by_cases hE : m / 2 ^ 52 = m' / 2 ^ 52
+  · have hF : m % 2 ^ 52 < m' % 2 ^ 52 := by omega
+    unfold magScaled
+    rw [← hE]
+    by_cases h0 : m / 2 ^ 52 = 0
+    · simp only [h0, if_true]; exact hF
+    · simp only [h0, if_false]
+      exact Nat.mul_lt_mul_of_lt_of_le (by omega) (Nat.le_refl _) (Nat.two_pow_pos _)
+  · have hlt : m / 2 ^ 52 < m' / 2 ^ 52 := by
+      have := Nat.div_le_div_right (c := 2 ^ 52) (Nat.le_of_lt h)
+      omega
+    have h1 := magScaled_lt_top m
+    have h2 := magScaled_ge_bottom m' (by omega)
+    have hp : 2 ^ (m / 2 ^ 52) ≤ 2 ^ (m' / 2 ^ 52 - 1) := Nat.pow_le_pow_right (by decide) (by omega)
+    have h3 : 2 ^ 52 * 2 ^ (m / 2 ^ 52) ≤ 2 ^ 52 * 2 ^ (m' / 2 ^ 52 - 1) := Nat.mul_le_mul_left _ hp
+    omega
+
+theorem magScaled_lt_iff (m m' : Nat) : magScaled m < magScaled m' ↔ m < m' := by
+  constructor
+  · intro h
+    apply Classical.byContradiction
+    intro hn
+    rcases Nat.lt_or_eq_of_le (Nat.le_of_not_lt hn) with h1 | h1
+    · have := magScaled_strictMono _ _ h1; omega
+    · subst h1; omega
+  · exact magScaled_strictMono m m'
+
+theorem magScaled_zero : magScaled 0 = 0 := by decide
+
+theorem magScaled_pos_iff (m : Nat) : 0 < magScaled m ↔ 0 < m := by
+  have := magScaled_lt_iff 0 m
+  rw [magScaled_zero] at this
+  exact this
+
+/-- F: the order of the sign-magnitude keys (`partial_cmp` on non-NaN doubles) is the order of the
+exact values -/
+theorem key_lt_iff_scaled (x y : Nat) : F64.key x < F64.key y ↔ scaledF x < scaledF y := by
+  unfold F64.key scaledF fNeg
+  rw [scaledMag_eq, scaledMag_eq]
+  have hx := magScaled_pos_iff (mag x)
+  have hy := magScaled_pos_iff (mag y)
+  have hxy := magScaled_lt_iff (mag x) (mag y)
+  have hyx := magScaled_lt_iff (mag y) (mag x)
+  by_cases sx : signBit x = 1 <;> by_cases sy : signBit y = 1 <;> simp only [sx, sy, beq_self_eq_true, if_true, if_false, beq_iff_eq] <;> omega
+
+
+theorem scaledMag_toQ (b : Nat) : scaledMag b * (toQ b).2 = (toQ b).1 * 2 ^ 1074 := by
+  unfold scaledMag toQ
+  simp only
+  by_cases h0 : expField b = 0
+  · simp [h0]
+  · simp only [h0, if_false]
+    by_cases h1 : expField b ≥ 1075
+    · simp only [h1, if_true, Nat.mul_one]
+      rw [Nat.mul_assoc, ← Nat.pow_add]
+      congr 2
+      omega
+    · simp only [h1, if_false]
+      rw [Nat.mul_assoc, ← Nat.pow_add]
+      congr 2
+      omega
+
+/-- F: an exactly converted integer has the exact value of the integer -/
+theorem scaledF_ofInt (i : Int) (h : exactInt i = true) : scaledF (ofInt i) = i * 2 ^ 1074 := by
+  obtain ⟨_, hq, hs⟩ := exactInt_unpack i h
+  have hm := scaledMag_toQ (ofInt i)
+  rw [hq] at hm
+  have hd := toQ_den_pos (ofInt i)
+  have hmag : scaledMag (ofInt i) = i.natAbs * 2 ^ 1074 := by
+    have : scaledMag (ofInt i) * (toQ (ofInt i)).2 = (i.natAbs * 2 ^ 1074) * (toQ (ofInt i)).2 := by
+      rw [hm]; grind
+    exact Nat.eq_of_mul_eq_mul_right hd this
+  unfold scaledF
+  rw [hs, hmag]
+  by_cases hn : i < 0
+  · have : ((i.natAbs : Nat) : Int) = -i := by omega
+    simp only [hn, decide_true, if_true]
+    push_cast
+    rw [this]
+    grind
+  · have : ((i.natAbs : Nat) : Int) = i := by omega
+    simp only [hn, decide_false, Bool.false_eq_true, if_false]
+    push_cast
+    rw [this]
+
+theorem ofInt_not_nan (i : Int) (h : exactInt i = true) : isNaN (ofInt i) = false :=
+  (finite_not_special _ (exactInt_unpack i h).1).1
+
+theorem partialCmp_lt_iff (x y : Nat) (hx : isNaN x = false) (hy : isNaN y = false) :
+    partialCmp x y = some .lt ↔ scaledF x < scaledF y := by
+  unfold partialCmp
+  simp only [hx, hy, Bool.or_self, Bool.false_eq_true, if_false, Option.some.injEq, Int.compare_eq_lt]
+  exact key_lt_iff_scaled x y
+
+theorem partialCmp_gt_iff (x y : Nat) (hx : isNaN x = false) (hy : isNaN y = false) :
+    partialCmp x y = some .gt ↔ scaledF y < scaledF x := by
+  unfold partialCmp
+  simp only [hx, hy, Bool.or_self, Bool.false_eq_true, if_false, Option.some.injEq, Int.compare_eq_gt]
+  exact key_lt_iff_scaled y x
+
+theorem string_compare_lt (x y : String) : compare x y = .lt ↔ x < y := by
+  show String.compare x y = .lt ↔ _
+  unfold String.compare compareOfLessAndEq
+  by_cases h : x < y
+  · simp [h]
+  · by_cases he : x = y <;> simp [h, he]
+
+theorem string_compare_gt (x y : String) : compare x y = .gt ↔ y < x := by
+  show String.compare x y = .gt ↔ _
+  unfold String.compare compareOfLessAndEq
+  by_cases h : x < y
+  · simp [h]; exact String.lt_asymm h
+  · by_cases he : x = y
+    · subst he; simp [String.lt_irrefl]
+    · simp only [h, he, if_false, true_iff]
+      apply Classical.byContradiction; intro hn
+      exact he (String.le_antisymm (String.not_lt.1 hn) (String.not_lt.1 h))
+
+/-- the values the theorems speak about: integers, non-NaN floats, text that does not read as a
+number. With floats around (`fl`), the integers must convert to a double exactly (all of
+magnitude below 2^53 do), because the code compares an integer with a float as doubles. -/
+def okVal (fl : Bool) : Val → Bool
+  | .int i => !fl || exactInt i
+  | .float b => fl && !isNaN b
+  | .str s => (parseF64 s.toList).isNone
+  | .null => false
+
+/-- a value in the domain is a number with a numeric key, or a string -/
+theorem okVal_class (fl : Bool) (v : Val) (h : okVal fl v = true) :
+    (∃ k, numK v = some k) ∨ (∃ s, v = .str s ∧ numK v = none) := by
+  cases v with
+  | null => simp [okVal] at h
+  | int i => exact Or.inl ⟨_, rfl⟩
+  | str s => exact Or.inr ⟨s, rfl, rfl⟩
+  | float b =>
+    simp only [okVal, Bool.and_eq_true, Bool.not_eq_true'] at h
+    exact Or.inl ⟨scaledF b, by simp [numK, h.2]⟩
+
+theorem specLt_trans (fl : Bool) (a b c : Val) (ha : okVal fl a = true) (hb : okVal fl b = true) (hc : okVal fl c = true)
+    (h1 : specLt a b = true) (h2 : specLt b c = true) : specLt a c = true := by
+  rcases okVal_class fl a ha with ⟨ka, hka⟩ | ⟨sa, rfl, hka⟩ <;>
+  rcases okVal_class fl b hb with ⟨kb, hkb⟩ | ⟨sb, rfl, hkb⟩ <;>
+  rcases okVal_class fl c hc with ⟨kc, hkc⟩ | ⟨sc, rfl, hkc⟩ <;>
+  simp_all [specLt, isStr, strLt]
+  · omega
+  · exact String.lt_trans h1 h2
+
+/-- negative transitivity: what is below `c` is below `b`, or `b` is below `c` -/
+theorem specLt_ntrans (fl : Bool) (a b c : Val) (ha : okVal fl a = true) (hb : okVal fl b = true) (hc : okVal fl c = true)
+    (h : specLt a c = true) : specLt a b = true ∨ specLt b c = true := by
+  rcases okVal_class fl a ha with ⟨ka, hka⟩ | ⟨sa, rfl, hka⟩ <;>
+  rcases okVal_class fl b hb with ⟨kb, hkb⟩ | ⟨sb, rfl, hkb⟩ <;>
+  rcases okVal_class fl c hc with ⟨kc, hkc⟩ | ⟨sc, rfl, hkc⟩ <;>
+  simp_all [specLt, isStr, strLt]
+  · omega
+  · by_cases h1 : sa < sb
+    · exact Or.inl h1
+    · right
+      rcases Nat.lt_or_ge 0 1 with _ | _
+      · apply Classical.byContradiction
+        intro h2
+        have e1 := String.not_lt.1 h1
+        have e2 := String.not_lt.1 h2
+        have := String.le_trans e2 e1
+        exact String.not_lt.2 this h
+      · omega
+
+/-- on the domain the coded comparison decides the specification's order -/
+theorem cmpAgg_lt_iff (fl : Bool) (a b : Val) (ha : okVal fl a = true) (hb : okVal fl b = true) :
+    cmpAgg a b = some .lt ↔ specLt a b = true := by
+  cases a with
+  | null => simp [okVal] at ha
+  | int x =>
+    cases b with
+    | null => simp [okVal] at hb
+    | int y =>
+      simp only [cmpAgg, Option.some.injEq, Int.compare_eq_lt, specLt, numK, decide_eq_true_eq]
+      constructor
+      · intro h; exact Int.mul_lt_mul_of_pos_right h (by decide +kernel)
+      · intro h; exact Int.lt_of_mul_lt_mul_right h (by decide +kernel)
+    | str s =>
+      simp only [okVal, Option.isNone_iff_eq_none] at hb
+      simp [cmpAgg, cmpIntStr, hb, specLt, numK, isStr]
+    | float y =>
+      simp only [okVal, Bool.and_eq_true, Bool.not_eq_true'] at ha hb
+      have hx : exactInt x = true := by rcases hb with ⟨h1, _⟩; simpa [h1] using ha
+      simp only [cmpAgg, specLt, numK, hb.2, Bool.false_eq_true, if_false, decide_eq_true_eq]
+      rw [partialCmp_lt_iff _ _ (ofInt_not_nan x hx) hb.2, scaledF_ofInt x hx]
+  | str s =>
+    simp only [okVal, Option.isNone_iff_eq_none] at ha
+    cases b with
+    | null => simp [okVal] at hb
+    | int y => simp [cmpAgg, cmpStrInt, ha, specLt, numK]
+    | str t =>
+      simp only [okVal, Option.isNone_iff_eq_none] at hb
+      simp [cmpAgg, cmpStrStr, ha, hb, specLt, numK, strLt, string_compare_lt]
+    | float y =>
+      simp only [okVal, Bool.and_eq_true, Bool.not_eq_true'] at hb
+      simp [cmpAgg, cmpStrFloat, ha, specLt, numK, hb.2]
+  | float x =>
+    simp only [okVal, Bool.and_eq_true, Bool.not_eq_true'] at ha
+    cases b with
+    | null => simp [okVal] at hb
+    | int y =>
+      have hy : exactInt y = true := by simpa [okVal, ha.1] using hb
+      simp only [cmpAgg, specLt, numK, ha.2, Bool.false_eq_true, if_false, decide_eq_true_eq]
+      rw [partialCmp_lt_iff _ _ ha.2 (ofInt_not_nan y hy), scaledF_ofInt y hy]
+    | str t =>
+      simp only [okVal, Option.isNone_iff_eq_none] at hb
+      simp [cmpAgg, cmpFloatStr, hb, specLt, numK, ha.2, isStr]
+    | float y =>
+      simp only [okVal, Bool.and_eq_true, Bool.not_eq_true'] at hb
+      simp only [cmpAgg, specLt, numK, ha.2, hb.2, Bool.false_eq_true, if_false, decide_eq_true_eq]
+      exact partialCmp_lt_iff _ _ ha.2 hb.2
+
+theorem cmpAgg_gt_iff (fl : Bool) (a b : Val) (ha : okVal fl a = true) (hb : okVal fl b = true) :
+    cmpAgg a b = some .gt ↔ specLt b a = true := by
+  cases a with
+  | null => simp [okVal] at ha
+  | int x =>
+    cases b with
+    | null => simp [okVal] at hb
+    | int y =>
+      simp only [cmpAgg, Option.some.injEq, Int.compare_eq_gt, specLt, numK, decide_eq_true_eq]
+      constructor
+      · intro h; exact Int.mul_lt_mul_of_pos_right h (by decide +kernel)
+      · intro h; exact Int.lt_of_mul_lt_mul_right h (by decide +kernel)
+    | str s =>
+      simp only [okVal, Option.isNone_iff_eq_none] at hb
+      simp [cmpAgg, cmpIntStr, hb, specLt, numK]
+    | float y =>
+      simp only [okVal, Bool.and_eq_true, Bool.not_eq_true'] at ha hb
+      have hx : exactInt x = true := by rcases hb with ⟨h1, _⟩; simpa [h1] using ha
+      simp only [cmpAgg, specLt, numK, hb.2, Bool.false_eq_true, if_false, decide_eq_true_eq]
+      rw [partialCmp_gt_iff _ _ (ofInt_not_nan x hx) hb.2, scaledF_ofInt x hx]
+  | str s =>
+    simp only [okVal, Option.isNone_iff_eq_none] at ha
+    cases b with
+    | null => simp [okVal] at hb
+    | int y => simp [cmpAgg, cmpStrInt, ha, specLt, numK, isStr]
+    | str t =>
+      simp only [okVal, Option.isNone_iff_eq_none] at hb
+      simp [cmpAgg, cmpStrStr, ha, hb, specLt, numK, strLt, string_compare_gt]
+    | float y =>
+      simp only [okVal, Bool.and_eq_true, Bool.not_eq_true'] at hb
+      simp [cmpAgg, cmpStrFloat, ha, specLt, numK, hb.2, isStr]
+  | float x =>
+    simp only [okVal, Bool.and_eq_true, Bool.not_eq_true'] at ha
+    cases b with
+    | null => simp [okVal] at hb
+    | int y =>
+      have hy : exactInt y = true := by simpa [okVal, ha.1] using hb
+      simp only [cmpAgg, specLt, numK, ha.2, Bool.false_eq_true, if_false, decide_eq_true_eq]
+      rw [partialCmp_gt_iff _ _ ha.2 (ofInt_not_nan y hy), scaledF_ofInt y hy]
+    | str t =>
+      simp only [okVal, Option.isNone_iff_eq_none] at hb
+      simp [cmpAgg, cmpFloatStr, hb, specLt, numK, ha.2]
+    | float y =>
+      simp only [okVal, Bool.and_eq_true, Bool.not_eq_true'] at hb
+      simp only [cmpAgg, specLt, numK, ha.2, hb.2, Bool.false_eq_true, if_false, decide_eq_true_eq]
+      exact partialCmp_gt_iff _ _ ha.2 hb.2
+
+theorem okVal_ne_null (fl : Bool) (v : Val) (h : okVal fl v = true) : v ≠ .null := by
+  cases v <;> simp_all [okVal]
+
+theorem foldl_minStep_spec (fl : Bool) (c : Val) (l : List Val) (hc : okVal fl c = true) (hl : ∀ x ∈ l, okVal fl x = true) :
+    l.foldl minStep (some c) = some (l.foldl (fun cur x => if specLt x cur then x else cur) c) := by
+  induction l generalizing c with
+  | nil => rfl
+  | cons v vs ih =>
+    have hv := hl v (by simp)
+    simp only [List.foldl_cons, minStep]
+    by_cases h : specLt v c = true
+    · simp only [(cmpAgg_lt_iff fl v c hv hc).2 h, if_true, h]
+      exact ih v hv (fun x hx => hl x (List.mem_cons_of_mem _ hx))
+    · have hn : ¬ cmpAgg v c = some .lt := fun hh => h ((cmpAgg_lt_iff fl v c hv hc).1 hh)
+      simp only [hn, if_false, h]
+      exact ih c hc (fun x hx => hl x (List.mem_cons_of_mem _ hx))
+
+theorem foldl_maxStep_spec (fl : Bool) (c : Val) (l : List Val) (hc : okVal fl c = true) (hl : ∀ x ∈ l, okVal fl x = true) :
+    l.foldl maxStep (some c) = some (l.foldl (fun cur x => if specLt cur x then x else cur) c) := by
+  induction l generalizing c with
+  | nil => rfl
+  | cons v vs ih =>
+    have hv := hl v (by simp)
+    simp only [List.foldl_cons, maxStep]
+    by_cases h : specLt c v = true
+    · simp only [(cmpAgg_gt_iff fl v c hv hc).2 h, if_true, h]
+      exact ih v hv (fun x hx => hl x (List.mem_cons_of_mem _ hx))
+    · have hn : ¬ cmpAgg v c = some .gt := fun hh => h ((cmpAgg_gt_iff fl v c hv hc).1 hh)
+      simp only [hn, if_false, h]
+      exact ih c hc (fun x hx => hl x (List.mem_cons_of_mem _ hx))
+
+theorem foldl_update_min (m : Option Val) (l : List Val) : l.foldl St.update (.min m) = .min (l.foldl minStep m) := by
+  induction l generalizing m with
+  | nil => rfl
+  | cons v vs ih => simp [List.foldl_cons, St.update, ih]
+
+theorem foldl_update_max (m : Option Val) (l : List Val) : l.foldl St.update (.max m) = .max (l.foldl maxStep m) := by
+  induction l generalizing m with
+  | nil => rfl
+  | cons v vs ih => simp [List.foldl_cons, St.update, ih]
+
+/-- hypothesis of the min / max theorems: every non-null value is an integer, a non-NaN float or
+text that does not read as a number; when floats occur the integers are exactly representable -/
+def minMaxOK (vs : List Val) : Bool := (nonNull vs).all (okVal ((nonNull vs).any isFloat))
+
+/-- P (3): over integers, floats and plain text the coded `min` is the first minimum of the
+specification's value order (numbers by exact numeric value — an integer against a float too —,
+then text): the same value whatever the order in which equal-ranking competitors arrive, and
+numerically the minimum whatever the arrival order at all. -/
+theorem min_coded_partial (vs : List Val) (hp : minMaxOK vs = true) :
+    colAgg .min false vs = ofVal ((specMin (nonNull vs)).getD .null) := by
+  unfold colAgg
+  rw [foldl_feed_nonNull _ _ (by simp)]
+  simp only [St.init]
+  rw [foldl_update_min]
+  unfold minMaxOK at hp
+  generalize (nonNull vs).any isFloat = fl at hp
+  cases hnn : nonNull vs with
+  | nil => simp [specMin, St.finalize]
+  | cons v l =>
+    rw [hnn] at hp
+    simp only [List.all_cons, Bool.and_eq_true] at hp
+    have hl : ∀ x ∈ l, okVal fl x = true := fun x hx => List.all_eq_true.1 hp.2 x hx
+    simp only [List.foldl_cons, minStep]
+    rw [foldl_minStep_spec fl v l hp.1 hl]
+    rcases foldl_first_min specLt (fun x => okVal fl x = true) (specLt_trans fl) (specLt_ntrans fl) specMin rfl
+      (fun v vs => by rw [specMin]; cases specMin vs <;> rfl) v l hp.1 hl with ⟨m, hm, _, hf⟩ | ⟨hnone, hf⟩
+    · rw [hf]
+      simp only [specMin, hm, St.finalize]
+      by_cases h : specLt m v = true <;> simp [h]
+    · rw [hf]
+      simp [specMin, hnone, St.finalize]
+
+theorem min_eq_spec_partial (vs : List Val) (hp : minMaxOK vs = true) :
+    specAgg .min false vs = .ok (colAgg .min false vs) ∨ specAgg .min false vs = .any := by
+  by_cases h : minMaxOpen (specMin (nonNull vs)) (nonNull vs) = true
+  · right; simp [specAgg, h]
+  · left; simp [specAgg, h, min_coded_partial vs hp]
+
+/-- P (3): … and the coded `max` is the first maximum. -/
+theorem max_coded_partial (vs : List Val) (hp : minMaxOK vs = true) :
+    colAgg .max false vs = ofVal ((specMax (nonNull vs)).getD .null) := by
+  unfold colAgg
+  rw [foldl_feed_nonNull _ _ (by simp)]
+  simp only [St.init]
+  rw [foldl_update_max]
+  unfold minMaxOK at hp
+  generalize (nonNull vs).any isFloat = fl at hp
+  cases hnn : nonNull vs with
+  | nil => simp [specMax, St.finalize]
+  | cons v l =>
+    rw [hnn] at hp
+    simp only [List.all_cons, Bool.and_eq_true] at hp
+    have hl : ∀ x ∈ l, okVal fl x = true := fun x hx => List.all_eq_true.1 hp.2 x hx
+    simp only [List.foldl_cons, maxStep]
+    rw [foldl_maxStep_spec fl v l hp.1 hl]
+    have hflip : (fun cur x => if specLt cur x then x else cur) = (fun cur x => if (fun a b => specLt b a) x cur then x else cur) := rfl
+    rw [hflip]
+    rcases foldl_first_min (fun a b => specLt b a) (fun x => okVal fl x = true)
+      (fun a b c ha hb hc h1 h2 => specLt_trans fl c b a hc hb ha h2 h1)
+      (fun a b c ha hb hc h => (specLt_ntrans fl c b a hc hb ha h).symm)
+      specMax rfl (fun v vs => by rw [specMax]; cases specMax vs <;> rfl) v l hp.1 hl with ⟨m, hm, _, hf⟩ | ⟨hnone, hf⟩
+    · rw [hf]
+      simp only [specMax, hm, St.finalize]
+      by_cases h : specLt v m = true <;> simp [h]
+    · rw [hf]
+      simp [specMax, hnone, St.finalize]
+
+theorem max_eq_spec_partial (vs : List Val) (hp : minMaxOK vs = true) :
+    specAgg .max false vs = .ok (colAgg .max false vs) ∨ specAgg .max false vs = .any := by
+  by_cases h : minMaxOpen (specMax (nonNull vs)) (nonNull vs) = true
+  · right; simp [specAgg, h]
+  · left; simp [specAgg, h, max_coded_partial vs hp]
+
+theorem specLt_irrefl (a : Val) : specLt a a = false := by
+  cases a with
+  | null => rfl
+  | int i => simp [specLt, numK]
+  | str s => simp [specLt, numK, strLt, String.lt_irrefl]
+  | float b => by_cases h : isNaN b = true <;> simp [specLt, numK, h, strLt]
+
+/-- the specification's `min` is a minimum: in the list, nothing below it -/
+theorem specMin_isMin (fl : Bool) (l : List Val) (hl : ∀ x ∈ l, okVal fl x = true) (m : Val) (hm : specMin l = some m) :
+    m ∈ l ∧ ∀ x ∈ l, specLt x m = false := by
+  induction l generalizing m with
+  | nil => simp [specMin] at hm
+  | cons v vs ih =>
+    have hv := hl v (by simp)
+    have hvs : ∀ x ∈ vs, okVal fl x = true := fun x hx => hl x (List.mem_cons_of_mem _ hx)
+    rw [specMin] at hm
+    cases hs : specMin vs with
+    | none =>
+      rw [hs] at hm
+      cases vs with
+      | nil => simp at hm; subst hm; simp [specLt_irrefl]
+      | cons w ws => rw [specMin] at hs; cases h2 : specMin ws <;> simp [h2] at hs <;> split at hs <;> simp at hs
+    | some m' =>
+      rw [hs] at hm
+      obtain ⟨hmem, hmin⟩ := ih hvs m' hs
+      have hm' := hvs m' hmem
+      by_cases hlt : specLt m' v = true
+      · simp [hlt] at hm; subst hm
+        refine ⟨List.mem_cons_of_mem _ hmem, ?_⟩
+        intro x hx
+        rcases List.mem_cons.1 hx with rfl | hx
+        · cases h : specLt x m' with
+          | false => rfl
+          | true =>
+            have := specLt_trans fl x m' x hv hm' hv h hlt
+            simp [specLt_irrefl] at this
+        · exact hmin x hx
+      · simp [hlt] at hm; subst hm
+        refine ⟨by simp, ?_⟩
+        intro x hx
+        rcases List.mem_cons.1 hx with rfl | hx
+        · exact specLt_irrefl _
+        · cases h : specLt x v with
+          | false => rfl
+          | true =>
+            rcases specLt_ntrans fl x m' v (hvs x hx) hm' hv h with h1 | h1
+            · have := hmin x hx; simp_all
+            · exact absurd h1 hlt
+
+/-- F (order independence): whatever the order in which the values arrive, the coded `min` of two
+arrangements of the same values rank the same — neither is below the other (they are numerically
+equal numbers, or the same text). -/
+theorem min_order_independent (l1 l2 : List Val) (hperm : l1.Perm l2) (h1 : minMaxOK l1 = true) :
+    ∃ m1 m2, colAgg .min false l1 = ofVal m1 ∧ colAgg .min false l2 = ofVal m2 ∧
+      specLt m1 m2 = false ∧ specLt m2 m1 = false := by
+  have hp : (nonNull l1).Perm (nonNull l2) := hperm.filter _
+  have hfl : (nonNull l1).any isFloat = (nonNull l2).any isFloat := by
+    rw [Bool.eq_iff_iff]; simp only [List.any_eq_true]
+    exact ⟨fun ⟨x, hx, h⟩ => ⟨x, hp.mem_iff.1 hx, h⟩, fun ⟨x, hx, h⟩ => ⟨x, hp.mem_iff.2 hx, h⟩⟩
+  have h2 : minMaxOK l2 = true := by
+    unfold minMaxOK at h1 ⊢
+    rw [← hfl, List.all_eq_true] at *
+    exact fun x hx => h1 x (hp.mem_iff.2 hx)
+  refine ⟨(specMin (nonNull l1)).getD .null, (specMin (nonNull l2)).getD .null,
+    min_coded_partial l1 h1, min_coded_partial l2 h2, ?_, ?_⟩ <;>
+  · unfold minMaxOK at h1 h2
+    rw [← hfl] at h2
+    generalize (nonNull l1).any isFloat = fl at h1 h2
+    rw [List.all_eq_true] at h1 h2
+    cases e1 : specMin (nonNull l1) with
+    | none =>
+      cases e2 : specMin (nonNull l2) with
+      | none => rfl
+      | some m2 =>
+        have := (specMin_isMin fl _ h2 m2 e2).1
+        have hm := hp.mem_iff.2 this
+        cases hl : nonNull l1 with
+        | nil => simp [hl] at hm
+        | cons a as => rw [hl, specMin] at e1; cases h3 : specMin as <;> simp [h3] at e1 <;> split at e1 <;> simp at e1
+    | some m1 =>
+      cases e2 : specMin (nonNull l2) with
+      | none =>
+        have := (specMin_isMin fl _ h1 m1 e1).1
+        have hm := hp.mem_iff.1 this
+        cases hl : nonNull l2 with
+        | nil => simp [hl] at hm
+        | cons a as => rw [hl, specMin] at e2; cases h3 : specMin as <;> simp [h3] at e2 <;> split at e2 <;> simp at e2
+      | some m2 =>
+        obtain ⟨hm1, hmin1⟩ := specMin_isMin fl _ h1 m1 e1
+        obtain ⟨hm2, hmin2⟩ := specMin_isMin fl _ h2 m2 e2
+        simp only [Option.getD_some]
+        first
+          | exact hmin2 m1 (hp.mem_iff.1 hm1)
+          | exact hmin1 m2 (hp.mem_iff.2 hm2)
+
+/-- integers and plain text (no floats): the earlier domain is an instance -/
+def isPlain : Val → Bool
+  | .int _ => true
+  | .str s => (parseF64 s.toList).isNone
+  | _ => false
+
+theorem minMaxOK_of_plain (vs : List Val) (h : (nonNull vs).all isPlain = true) : minMaxOK vs = true := by
+  unfold minMaxOK
+  have hnf : (nonNull vs).any isFloat = false := by
+    rw [List.any_eq_false]
+    intro x hx
+    have := List.all_eq_true.1 h x hx
+    cases x <;> simp_all [isPlain, isFloat]
+  rw [hnf, List.all_eq_true]
+  intro x hx
+  have := List.all_eq_true.1 h x hx
+  cases x <;> simp_all [isPlain, okVal]
+
+/-- integers below 2^53 in magnitude, non-NaN floats and plain text: the domain in closed form -/
+def isSmallNum : Val → Bool
+  | .int i => decide (i.natAbs < 2 ^ 53)
+  | .float b => !isNaN b
+  | .str s => (parseF64 s.toList).isNone
+  | .null => false
+
+theorem minMaxOK_of_small (vs : List Val) (h : (nonNull vs).all isSmallNum = true) : minMaxOK vs = true := by
+  unfold minMaxOK
+  rw [List.all_eq_true] at h ⊢
+  intro x hx
+  have hs := h x hx
+  cases x with
+  | null => simp [isSmallNum] at hs
+  | int i =>
+    simp only [isSmallNum, decide_eq_true_eq] at hs
+    simp [okVal, exactInt_small i hs]
+  | str s => simpa [okVal, isSmallNum] using hs
+  | float b =>
+    have : (nonNull vs).any isFloat = true := List.any_eq_true.2 ⟨_, hx, rfl⟩
+    simpa [okVal, isSmallNum, this] using hs
+
+/-- W: the full statements are false. Text that reads as a number is compared as a number ("10" vs
+"9"); an integer of 2^53 or more is rounded before it is compared with a float (2^53 + 1 against
+the float 2^53 compare equal, so the first to arrive wins). -/
+theorem min_not_spec : ¬ ∀ vs : List Val, specAgg .min false vs = .ok (colAgg .min false vs) ∨ specAgg .min false vs = .any := by
+  intro h
+  exact absurd (h [.str "10", .str "9"]) (by decide +kernel)
+
+theorem max_not_spec : ¬ ∀ vs : List Val, specAgg .max false vs = .ok (colAgg .max false vs) ∨ specAgg .max false vs = .any := by
+  intro h
+  exact absurd (h [.str "10", .str "9"]) (by decide +kernel)
+
+theorem min_numeric_strings_witness :
+    colAgg .min false [.str "10", .str "9"] = .str "9" ∧ specAgg .min false [.str "10", .str "9"] = .ok (.str "10") := by
+  refine ⟨by decide +kernel, by decide +kernel⟩
+
+theorem min_big_int_float_witness :
+    colAgg .min false [.int (2 ^ 53 + 1), .float 0x4340000000000000] = .int (2 ^ 53 + 1) ∧
+    specAgg .min false [.int (2 ^ 53 + 1), .float 0x4340000000000000] = .ok (.float 0x4340000000000000) ∧
+    colAgg .min false [.float 0x4340000000000000, .int (2 ^ 53 + 1)] = .float 0x4340000000000000 := by
+  refine ⟨by decide +kernel, by decide +kernel, by decide +kernel⟩
+
+/-- N: 10, 2.5, 7 with a null, in two arrival orders: the hypothesis holds, min is 2.5 and max is 10
+both times; 5 and 5.0 tie — the first to arrive is returned, and the specification does not choose. -/
+theorem min_max_nonvacuous :
+    minMaxOK [.int 10, .null, .float 0x4004000000000000, .int 7] = true ∧
+    colAgg .min false [.int 10, .null, .float 0x4004000000000000, .int 7] = .float 0x4004000000000000 ∧
+    colAgg .max false [.int 10, .null, .float 0x4004000000000000, .int 7] = .int 10 ∧
+    colAgg .min false [.float 0x4004000000000000, .int 7, .int 10] = .float 0x4004000000000000 ∧
+    colAgg .max false [.float 0x4004000000000000, .int 7, .int 10] = .int 10 ∧
+    colAgg .min false [.int 5, .float 0x4014000000000000] = .int 5 ∧
+    colAgg .min false [.float 0x4014000000000000, .int 5] = .float 0x4014000000000000 ∧
+    specAgg .min false [.float 0x4014000000000000, .int 5] = .any ∧
+    colAgg .max false [.str "a", .int 1, .float 0x4004000000000000] = .str "a" := by
+  refine ⟨by decide +kernel, by decide +kernel, by decide +kernel, by decide +kernel, by decide +kernel,
+    by decide +kernel, by decide +kernel, by decide +kernel, by decide +kernel⟩
+
+
+/-- the specification's `max` is a maximum: in the list, nothing above it -/
+theorem specMax_isMax (fl : Bool) (l : List Val) (hl : ∀ x ∈ l, okVal fl x = true) (m : Val) (hm : specMax l = some m) :
+    m ∈ l ∧ ∀ x ∈ l, specLt m x = false := by
+  induction l generalizing m with
+  | nil => simp [specMax] at hm
+  | cons v vs ih =>
+    have hv := hl v (by simp)
+    have hvs : ∀ x ∈ vs, okVal fl x = true := fun x hx => hl x (List.mem_cons_of_mem _ hx)
+    rw [specMax] at hm
+    cases hs : specMax vs with
+    | none =>
+      rw [hs] at hm
+      cases vs with
+      | nil => simp at hm; subst hm; simp [specLt_irrefl]
+      | cons w ws => rw [specMax] at hs; cases h2 : specMax ws <;> simp [h2] at hs <;> split at hs <;> simp at hs
+    | some m' =>
+      rw [hs] at hm
+      obtain ⟨hmem, hmax⟩ := ih hvs m' hs
+      have hm' := hvs m' hmem
+      by_cases hlt : specLt v m' = true
+      · simp [hlt] at hm; subst hm
+        refine ⟨List.mem_cons_of_mem _ hmem, ?_⟩
+        intro x hx
+        rcases List.mem_cons.1 hx with rfl | hx
+        · cases h : specLt m' x with
+          | false => rfl
+          | true =>
+            have := specLt_trans fl x m' x hv hm' hv hlt h
+            simp [specLt_irrefl] at this
+        · exact hmax x hx
+      · simp [hlt] at hm; subst hm
+        refine ⟨by simp, ?_⟩
+        intro x hx
+        rcases List.mem_cons.1 hx with rfl | hx
+        · exact specLt_irrefl _
+        · cases h : specLt v x with
+          | false => rfl
+          | true =>
+            rcases specLt_ntrans fl v m' x hv hm' (hvs x hx) h with h1 | h1
+            · exact absurd h1 hlt
+            · have := hmax x hx; simp_all
+
+/-- F (order independence): … and so do the coded `max` of two arrangements of the same values. -/
+theorem max_order_independent (l1 l2 : List Val) (hperm : l1.Perm l2) (h1 : minMaxOK l1 = true) :
+    ∃ m1 m2, colAgg .max false l1 = ofVal m1 ∧ colAgg .max false l2 = ofVal m2 ∧
+      specLt m1 m2 = false ∧ specLt m2 m1 = false := by
+  have hp : (nonNull l1).Perm (nonNull l2) := hperm.filter _
+  have hfl : (nonNull l1).any isFloat = (nonNull l2).any isFloat := by
+    rw [Bool.eq_iff_iff]; simp only [List.any_eq_true]
+    exact ⟨fun ⟨x, hx, h⟩ => ⟨x, hp.mem_iff.1 hx, h⟩, fun ⟨x, hx, h⟩ => ⟨x, hp.mem_iff.2 hx, h⟩⟩
+  have h2 : minMaxOK l2 = true := by
+    unfold minMaxOK at h1 ⊢
+    rw [← hfl, List.all_eq_true] at *
+    exact fun x hx => h1 x (hp.mem_iff.2 hx)
+  refine ⟨(specMax (nonNull l1)).getD .null, (specMax (nonNull l2)).getD .null,
+    max_coded_partial l1 h1, max_coded_partial l2 h2, ?_, ?_⟩ <;>
+  · unfold minMaxOK at h1 h2
+    rw [← hfl] at h2
+    generalize (nonNull l1).any isFloat = fl at h1 h2
+    rw [List.all_eq_true] at h1 h2
+    cases e1 : specMax (nonNull l1) with
+    | none =>
+      cases e2 : specMax (nonNull l2) with
+      | none => rfl
+      | some m2 =>
+        have := (specMax_isMax fl _ h2 m2 e2).1
+        have hm := hp.mem_iff.2 this
+        cases hl : nonNull l1 with
+        | nil => simp [hl] at hm
+        | cons a as => rw [hl, specMax] at e1; cases h3 : specMax as <;> simp [h3] at e1 <;> split at e1 <;> simp at e1
+    | some m1 =>
+      cases e2 : specMax (nonNull l2) with
+      | none =>
+        have := (specMax_isMax fl _ h1 m1 e1).1
+        have hm := hp.mem_iff.1 this
+        cases hl : nonNull l2 with
+        | nil => simp [hl] at hm
+        | cons a as => rw [hl, specMax] at e2; cases h3 : specMax as <;> simp [h3] at e2 <;> split at e2 <;> simp at e2
+      | some m2 =>
+        obtain ⟨hm1, hmax1⟩ := specMax_isMax fl _ h1 m1 e1
+        obtain ⟨hm2, hmax2⟩ := specMax_isMax fl _ h2 m2 e2
+        simp only [Option.getD_some]
+        first
+          | exact hmax1 m2 (hp.mem_iff.2 hm2)
+          | exact hmax2 m1 (hp.mem_iff.1 hm1)
+
+/-! ### floats among the inputs of sum / avg / count / collect -/
+
+theorem foldl_update_sumFloat (f : Nat) (l : List Val) :
+    ∃ f', l.foldl St.update (.sumFloat f) = .sumFloat f' := by
+  induction l generalizing f with
+  | nil => exact ⟨f, rfl⟩
+  | cons v vs ih => simp only [List.foldl_cons, St.update]; exact ih _
+
+/-- once a float has arrived the sum is a float for good: the integers before it are added exactly,
+converted once, and everything after goes through the float accumulator -/
+theorem sum_with_float_is_float (pre post : List Val) (x : Nat) (hpre : pre.all isInt = true) :
+    ∃ f, colAgg .sum false (pre ++ .float x :: post) =
+      .float f ∧ ∃ g, (nonNull post).foldl St.update (.sumFloat (fadd (ofInt (intSum pre)) x)) = .sumFloat g ∧ f = g := by
+  unfold colAgg
+  rw [foldl_feed_nonNull _ _ (by simp)]
+  simp only [St.init]
+  have hpre' : nonNull pre = pre := by
+    apply List.filter_eq_self.2
+    intro v hv
+    have := List.all_eq_true.1 hpre v hv
+    cases v <;> simp_all [isInt]
+  have hnn : nonNull (pre ++ .float x :: post) = pre ++ .float x :: nonNull post := by
+    unfold nonNull at hpre' ⊢
+    rw [List.filter_append, hpre']
+    simp [List.filter_cons]
+  rw [hnn, List.foldl_append, foldl_update_sumInt 0 pre hpre]
+  simp only [List.foldl_cons, St.update, sumIntStep, Int.zero_add]
+  obtain ⟨f, hf⟩ := foldl_update_sumFloat (fadd (ofInt (intSum pre)) x) (nonNull post)
+  exact ⟨f, by rw [hf]; rfl, f, hf, rfl⟩
+
+/-- W: with a float among the inputs the sum depends on the arrival order: the integers seen before
+the first float are added exactly, everything after it in floating point, one rounding per step
+(2^53 as a float, then 1, then 1 stays 2^53; 1, 1, then the float gives 2^53 + 2 — the
+specification's exact sum, rounded once). -/
+theorem sum_float_order_witness :
+    colAgg .sum false [.float 0x4340000000000000, .int 1, .int 1] = .float 0x4340000000000000 ∧
+    colAgg .sum false [.int 1, .int 1, .float 0x4340000000000000] = .float 0x4340000000000001 ∧
+    specAgg .sum false [.float 0x4340000000000000, .int 1, .int 1] = .ok (.float 0x4340000000000001) := by
+  refine ⟨by decide +kernel, by decide +kernel, by decide +kernel⟩
+
+/-- N: a column with 5, 5.0, 0.0, -0.0, 2.5 and a null: values that are numerically equal but differ
+in kind or sign of zero are different values for DISTINCT (as coded and as specified); sum and avg
+are exact here. -/
+theorem float_column_nonvacuous :
+    let vs : List Val := [.int 5, .float 0x4014000000000000, .null, .float 0, .float 0x8000000000000000, .float 0x4004000000000000]
+    colAgg .countNonNull false vs = .int 5 ∧ colAgg .countNonNull true vs = .int 5 ∧
+    colAgg .collect true (vs ++ [.float 0x4014000000000000]) = .list [.int 5, .float 0x4014000000000000, .float 0, .float 0x8000000000000000, .float 0x4004000000000000] ∧
+    colAgg .sum false vs = .float 0x4029000000000000 ∧ specAgg .sum false vs = .ok (.float 0x4029000000000000) ∧
+    colAgg .avg false vs = .float 0x4004000000000000 ∧ specAgg .avg false vs = .ok (.float 0x4004000000000000) := by
+  refine ⟨by decide, by decide, by decide, by decide +kernel, by decide +kernel, by decide +kernel, by decide +kernel⟩
+
+end MinMax
+
+/-! ## 4. the query level -/
+
+section QueryLevel
+variable {ft : FloatTab}
+
+theorem keyOf_range_append (ks rest : List Val) :
+    keyOf (List.range ks.length) (ks ++ rest) = ks := by
+  unfold keyOf
+  apply List.ext_getElem
+  · simp
+  · intro i h1 h2
+    simp only [List.length_map, List.length_range] at h1
+    simp [List.getElem?_append_left h1, List.getElem?_eq_getElem h1]
+
+theorem keyVals_length (q : AggQ) (b : Binding) : (keyVals ft q b).length = (keyItems q.items).length := by
+  simp [keyVals]
+
+theorem keyOf_opRow (q : AggQ) (b : Binding) :
+    keyOf (List.range (keyItems q.items).length) (opRow ft q b) = keyVals ft q b := by
+  unfold opRow
+  rw [← keyVals_length q b]
+  exact keyOf_range_append _ _
+
+/-- the bindings that pass WHERE and carry the key `k` -/
+def groupOf (ft : FloatTab) (q : AggQ) (bs : List Binding) (k : List Val) : List Binding :=
+  (bs.filter (passes q.preds)).filter (fun b => keyVals ft q b == k)
+
+/-- F (2) at the query level: for a query with group keys, the rows the aggregate operator returns
+are: for every distinct key tuple of the bindings that pass the predicate — in first-seen order —
+the key followed by the simple aggregate over the bindings that carry this key. -/
+theorem aggRows_grouped (q : AggQ) (bs : List Binding) (hk : (keyItems q.items).length ≠ 0) :
+    aggRows ft q bs =
+      (dedupKeys ((bs.filter (passes q.preds)).map (keyVals ft q))).map (fun k =>
+        k.map ofVal ++ simpleAgg (physAggs q) [(groupOf ft q bs k).map (opRow ft q)]) := by
+  unfold aggRows groupOf
+  simp only [hk, if_false]
+  rw [hashAgg_eq_perGroup]
+  have hf : (keyOf (List.range (keyItems q.items).length) ∘ opRow ft q) = keyVals ft q := funext (keyOf_opRow q)
+  simp only [List.flatten_cons, List.flatten_nil, List.append_nil, List.map_map, hf]
+  apply List.map_congr_left
+  intro k _
+  congr 3
+  rw [List.filter_map]
+  congr 1
+  apply List.filter_congr
+  intro b _
+  simp [Function.comp, keyOf_opRow]
+
+/-- … and without keys it is the simple aggregate over all of them: one row, also for no binding. -/
+theorem aggRows_global (q : AggQ) (bs : List Binding) (hk : (keyItems q.items).length = 0) :
+    aggRows ft q bs = [simpleAgg (physAggs q) [(bs.filter (passes q.preds)).map (opRow ft q)]] := by
+  unfold aggRows
+  simp [hk]
+
+/-! ### several aggregates at once = each aggregate on its own column -/
+
+theorem foldl_feedAll_nil (sts : List St) (rows : List Row) (h : rows ≠ []) : rows.foldl (feedAll []) sts = [] := by
+  induction rows generalizing sts with
+  | nil => exact absurd rfl h
+  | cons r rs ih =>
+    cases rs with
+    | nil => rfl
+    | cons r' rs' => rw [List.foldl_cons]; exact ih _ (by simp)
+
+theorem foldl_feedAll_cons (a : AggExpr) (as : List AggExpr) (st : St) (sts : List St) (rows : List Row) :
+    rows.foldl (feedAll (a :: as)) (st :: sts) = rows.foldl (feed a) st :: rows.foldl (feedAll as) sts := by
+  induction rows generalizing st sts with
+  | nil => rfl
+  | cons r rs ih => simp only [List.foldl_cons, feedAll, ih]
+
+theorem foldl_feedAll_init (aggs : List AggExpr) (rows : List Row) :
+    rows.foldl (feedAll aggs) (initAll aggs) = aggs.map (fun a => rows.foldl (feed a) (St.init a.fn a.distinct)) := by
+  induction aggs with
+  | nil =>
+    cases rows with
+    | nil => rfl
+    | cons r rs => exact foldl_feedAll_nil _ _ (by simp)
+  | cons a as ih =>
+    have : initAll (a :: as) = St.init a.fn a.distinct :: initAll as := rfl
+    rw [this, foldl_feedAll_cons, ih]
+    rfl
+
+/-- an aggregate reads only its own column -/
+theorem foldl_feed_column (fn : AggFn) (c : Nat) (d : Bool) (st : St) (rows : List Row) :
+    rows.foldl (feed ⟨fn, some c, d⟩) st =
+      ((rows.map (fun r => r.getD c .null)).map (fun v => [v])).foldl (feed ⟨fn, some 0, d⟩) st := by
+  induction rows generalizing st with
+  | nil => rfl
+  | cons r rs ih =>
+    simp only [List.map_cons, List.foldl_cons]
+    have hstep : feed ⟨fn, some c, d⟩ st r = feed ⟨fn, some 0, d⟩ st [r.getD c .null] := by
+      unfold feed
+      simp only [Option.bind, List.getD_eq_getElem?_getD, List.getElem?_cons_zero]
+      cases hrc : r[c]? with
+      | none => simp
+      | some v => simp
+    rw [hstep, ih]
+
+/-- F: `SimpleAggregateOperator` with several aggregates returns, for each of them, the aggregate
+of its own column. -/
+theorem simpleAgg_columns (aggs : List AggExpr) (rows : List Row) :
+    simpleAgg aggs [rows] = aggs.map (fun a => (rows.foldl (feed a) (St.init a.fn a.distinct)).finalize) := by
+  unfold simpleAgg
+  rw [runChunks_flatten]
+  simp [foldl_feedAll_init, List.map_map, Function.comp]
+
+/-- the coded value of one aggregate item over a group of bindings -/
+def codedCell (ft : FloatTab) (grp : List Binding) : Item → AVal
+  | .agg fn d s => colAgg (specFn fn) d (grp.map (fun b => srcVal ft b s))
+  | .key _ _ => .null
+
+/-- the specified value of one aggregate item over a group of bindings -/
+def specCellOf (ft : FloatTab) (grp : List Binding) : Item → SRes
+  | .agg fn d s => specAgg (specFn fn) d (grp.map (fun b => srcVal ft b s))
+  | .key _ _ => .ok .null
+
+theorem opRow_agg_column (q : AggQ) (b : Binding) (j : Nat) (it : Item) (h : (aggItems q.items)[j]? = some it) :
+    (opRow ft q b).getD ((keyItems q.items).length + j) .null = srcVal ft b (itemSrc it) := by
+  unfold opRow
+  rw [List.getD_eq_getElem?_getD, List.getElem?_append_right (by rw [keyVals_length]; omega), keyVals_length]
+  simp [aggVals, h]
+
+/-- F: the aggregate part of the operator's row for a group = the coded cell of every aggregate
+item, in the order of the items. -/
+theorem simpleAgg_opRows (q : AggQ) (grp : List Binding) :
+    simpleAgg (physAggs q) [grp.map (opRow ft q)] = (aggItems q.items).map (codedCell ft grp) := by
+  rw [simpleAgg_columns]
+  unfold physAggs
+  rw [List.map_map]
+  have hfst := List.zipIdx_map_fst 0 (aggItems q.items)
+  conv => rhs; rw [← hfst, List.map_map]
+  apply List.map_congr_left
+  intro ⟨it, j⟩ hmem
+  have hget : (aggItems q.items)[j]? = some it := List.mem_zipIdx_iff_getElem?.1 hmem
+  have hnk : it.isKey = false := by
+    have := List.mem_of_getElem? hget
+    simp only [aggItems, List.mem_filter, Bool.not_eq_true'] at this
+    exact this.2
+  cases it with
+  | key v k => simp [Item.isKey] at hnk
+  | agg fn d s =>
+    simp only [Function.comp, physAgg, codedCell, colAgg]
+    rw [foldl_feed_column]
+    congr 2
+    simp only [List.map_map]
+    apply List.map_congr_left
+    intro b _
+    simpa [itemSrc] using opRow_agg_column q b j _ hget
+
+/-! ### the specification's row for a key-first RETURN list -/
+
+theorem specCells_aggs (grp : List Binding) (ks : List Val) (A : List Item) (hA : ∀ x ∈ A, x.isKey = false) :
+    specCells ft grp ks A = A.map (specCellOf ft grp) := by
+  induction A with
+  | nil => rfl
+  | cons it rest ih =>
+    cases it with
+    | key v k => have := hA (.key v k) (by simp); simp [Item.isKey] at this
+    | agg fn d s =>
+      simp only [specCells, List.map_cons, specCellOf]
+      rw [ih (fun x hx => hA x (List.mem_cons_of_mem _ hx))]
+
+theorem specCells_keys (grp : List Binding) (K A : List Item) (k : List Val)
+    (hK : ∀ x ∈ K, x.isKey = true) (hA : ∀ x ∈ A, x.isKey = false) (hlen : k.length = K.length) :
+    specCells ft grp k (K ++ A) = k.map (fun v => .ok (ofVal v)) ++ A.map (specCellOf ft grp) := by
+  induction K generalizing k with
+  | nil =>
+    have : k = [] := List.eq_nil_of_length_eq_zero (by simpa using hlen)
+    subst this
+    simpa using specCells_aggs grp [] A hA
+  | cons it rest ih =>
+    cases k with
+    | nil => simp at hlen
+    | cons v vs =>
+      cases it with
+      | agg fn d s => have := hK (.agg fn d s) (by simp); simp [Item.isKey] at this
+      | key a b =>
+        simp only [List.cons_append, specCells, List.headD_cons, List.tail_cons, List.map_cons]
+        rw [ih vs (fun x hx => hK x (List.mem_cons_of_mem _ hx)) (by simpa using hlen)]
+
+theorem keyItems_isKey (items : List Item) : ∀ x ∈ keyItems items, x.isKey = true := by
+  intro x hx
+  simp only [keyItems, List.mem_filter] at hx
+  exact hx.2
+
+theorem aggItems_notKey (items : List Item) : ∀ x ∈ aggItems items, x.isKey = false := by
+  intro x hx
+  simp only [aggItems, List.mem_filter, Bool.not_eq_true'] at hx
+  exact hx.2
+
+/-- RETURN lists its keys first (the layout the operator produces anyway) -/
+def KeysFirst (q : AggQ) : Prop := q.items = keyItems q.items ++ aggItems q.items
+
+instance (q : AggQ) : Decidable (KeysFirst q) := by unfold KeysFirst; infer_instance
+
+theorem outPos_keysFirst (K A : List Item) (hK : ∀ x ∈ K, x.isKey = true) (hA : ∀ x ∈ A, x.isKey = false)
+    (i : Nat) (hi : i < (K ++ A).length) : outPos (K ++ A) i = i := by
+  unfold outPos
+  have hkf : keyItems (K ++ A) = K := by
+    simp only [keyItems, List.filter_append]
+    rw [List.filter_eq_self.2 hK, List.filter_eq_nil_iff.2 (fun x hx => by simp [hA x hx])]
+    simp
+  by_cases hlt : i < K.length
+  · have hg : (K ++ A)[i]? = some K[i] := by rw [List.getElem?_append_left hlt]; simp
+    have hik : K[i].isKey = true := hK _ (List.getElem_mem _)
+    rw [hg]
+    simp only [hik, if_true]
+    rw [List.take_append_of_le_length (by omega)]
+    rw [List.filter_eq_self.2 (fun x hx => hK x (List.mem_of_mem_take hx))]
+    simp; omega
+  · have hlen : i - K.length < A.length := by simp at hi; omega
+    have hg : (K ++ A)[i]? = some A[i - K.length] := by
+      rw [List.getElem?_append_right (by omega)]; simp [hlen]
+    have hik : A[i - K.length].isKey = false := hA _ (List.getElem_mem _)
+    rw [hg]
+    simp only [hik, Bool.false_eq_true, if_false, hkf]
+    rw [List.take_append, List.filter_append]
+    have h1 : (K.take i).filter (fun x => !x.isKey) = [] :=
+      List.filter_eq_nil_iff.2 (fun x hx => by simp [hK x (List.mem_of_mem_take hx)])
+    have h2 : (A.take (i - K.length)).filter (fun x => !x.isKey) = A.take (i - K.length) :=
+      List.filter_eq_self.2 (fun x hx => by simp [hA x (List.mem_of_mem_take hx)])
+    rw [h1, h2]
+    simp; omega
+
+/-! ### as coded = as specified, on the same bindings -/
+
+/-- the key tuples of the result: one empty tuple when RETURN has no key -/
+def resultKeys (ft : FloatTab) (q : AggQ) (bs : List Binding) : List (List Val) :=
+  if (keyItems q.items).isEmpty then [[]] else dedupKeys ((bs.filter (passes q.preds)).map (keyVals ft q))
+
+theorem groupOf_noKeys (q : AggQ) (bs : List Binding) (hk : (keyItems q.items).length = 0) :
+    groupOf ft q bs [] = bs.filter (passes q.preds) := by
+  unfold groupOf
+  apply List.filter_eq_self.2
+  intro b _
+  have : keyVals ft q b = [] := List.eq_nil_of_length_eq_zero (by rw [keyVals_length]; exact hk)
+  simp [this]
+
+/-- F: the rows of the aggregate operator, cell by cell: for every result key, the key values
+followed by the coded cell of every aggregate item. -/
+theorem aggRows_cells (q : AggQ) (bs : List Binding) :
+    aggRows ft q bs = (resultKeys ft q bs).map (fun k =>
+      k.map ofVal ++ (aggItems q.items).map (codedCell ft (groupOf ft q bs k))) := by
+  unfold resultKeys
+  by_cases hk : (keyItems q.items).length = 0
+  · have he : (keyItems q.items).isEmpty = true := by simpa [List.isEmpty_iff] using List.eq_nil_of_length_eq_zero hk
+    rw [aggRows_global q bs hk, he]
+    simp [simpleAgg_opRows, groupOf_noKeys q bs hk]
+  · have he : (keyItems q.items).isEmpty = false := by
+      cases h : keyItems q.items with
+      | nil => simp [h] at hk
+      | cons _ _ => rfl
+    rw [aggRows_grouped q bs hk, he]
+    simp [simpleAgg_opRows]
+
+theorem resultKeys_length (q : AggQ) (bs : List Binding) (k : List Val) (hk : k ∈ resultKeys ft q bs) :
+    k.length = (keyItems q.items).length := by
+  unfold resultKeys at hk
+  by_cases he : (keyItems q.items).isEmpty = true
+  · simp only [he, if_true, List.mem_singleton] at hk
+    subst hk
+    simp [List.isEmpty_iff.1 he]
+  · simp only [he, Bool.false_eq_true, if_false] at hk
+    have := (mem_dedupFirst _ _).1 hk
+    obtain ⟨b, _, rfl⟩ := List.mem_map.1 this
+    exact keyVals_length q b
+
+theorem map_sresVal_ok (r : List AVal) : (r.map SRes.ok).map sresVal = r := by
+  induction r with
+  | nil => rfl
+  | cons v vs ih => simp [sresVal, ih]
+
+theorem allOk_noErr (rows : List (List AVal)) :
+    ((rows.map (fun r => r.map SRes.ok)).flatten.filterMap sresErr).head? = none ∧
+    (rows.map (fun r => r.map SRes.ok)).flatten.any sresAny = false ∧
+    (rows.map (fun r => r.map SRes.ok)).map (fun r => r.map sresVal) = rows := by
+  refine ⟨?_, ?_, ?_⟩
+  · have : (rows.map (fun r => r.map SRes.ok)).flatten.filterMap sresErr = [] := by
+      rw [List.filterMap_eq_nil_iff]
+      intro x hx
+      simp only [List.mem_flatten, List.mem_map] at hx
+      obtain ⟨l, ⟨r, _, rfl⟩, hx⟩ := hx
+      obtain ⟨v, _, rfl⟩ := List.mem_map.1 hx
+      rfl
+    rw [this]; rfl
+  · rw [List.any_eq_false]
+    intro x hx
+    simp only [List.mem_flatten, List.mem_map] at hx
+    obtain ⟨l, ⟨r, _, rfl⟩, hx⟩ := hx
+    obtain ⟨v, _, rfl⟩ := List.mem_map.1 hx
+    simp [sresAny]
+  · rw [List.map_map]
+    conv => rhs; rw [← List.map_id rows]
+    apply List.map_congr_left
+    intro r _
+    exact map_sresVal_ok r
+
+/-- F (2)+(3), end to end on any list of bindings: for a query whose RETURN lists the keys first,
+if on every group every aggregate cell as coded is the one
+specified, the whole result as coded — grouping, row layout, ORDER BY, SKIP, LIMIT — is the
+specified result. -/
+theorem finishAgg_eq_finishSpec (q : AggQ) (bs : List Binding)
+    (hkf : KeysFirst q)
+    (hord : ∀ p ∈ q.orderBy, p.1 < q.items.length)
+    (hcells : ∀ k, ∀ it ∈ aggItems q.items,
+      specCellOf ft (groupOf ft q bs k) it = .ok (codedCell ft (groupOf ft q bs k) it)) :
+    finishAgg ft q bs = finishSpec ft q bs := by
+  have hcellsEq : (resultKeys ft q bs).map (specRow ft q (bs.filter (passes q.preds))) =
+      (aggRows ft q bs).map (fun r => r.map SRes.ok) := by
+    rw [aggRows_cells, List.map_map]
+    apply List.map_congr_left
+    intro k hk
+    have hlen := resultKeys_length q bs k hk
+    simp only [Function.comp, specRow]
+    have hgrp : (bs.filter (passes q.preds)).filter (fun b => keyVals ft q b == k) = groupOf ft q bs k := rfl
+    rw [hgrp]
+    have h1 : specCells ft (groupOf ft q bs k) k q.items =
+        specCells ft (groupOf ft q bs k) k (keyItems q.items ++ aggItems q.items) := congrArg _ hkf
+    show specCells ft (groupOf ft q bs k) k q.items = _
+    rw [h1, specCells_keys _ _ _ _ (keyItems_isKey _) (aggItems_notKey _) hlen, List.map_append, List.map_map, List.map_map]
+    congr 1
+    apply List.map_congr_left
+    intro it hit
+    exact hcells k it hit
+  have hsort : q.orderBy.map (fun (p : Nat × Bool) => (outPos q.items p.1, p.2)) = q.orderBy := by
+    have hop : ∀ i, i < q.items.length → outPos q.items i = i := by
+      intro i hi
+      have h2 : outPos q.items i = outPos (keyItems q.items ++ aggItems q.items) i := congrArg (fun l => outPos l i) hkf
+      rw [h2]
+      apply outPos_keysFirst _ _ (keyItems_isKey _) (aggItems_notKey _)
+      have h3 : q.items.length = (keyItems q.items ++ aggItems q.items).length := congrArg List.length hkf
+      omega
+    conv => rhs; rw [← List.map_id q.orderBy]
+    apply List.map_congr_left
+    intro p hp
+    simp [hop p.1 (hord p hp)]
+  obtain ⟨e1, e2, e3⟩ := allOk_noErr (aggRows ft q bs)
+  unfold finishAgg finishSpec
+  have hkeys : (if (keyItems q.items).isEmpty = true then [[]] else dedupKeys ((bs.filter (passes q.preds)).map (keyVals ft q))) =
+      resultKeys ft q bs := rfl
+  simp only [hkeys, hcellsEq, e1, e2, e3, Bool.false_eq_true, if_false]
+  have hsort' : q.orderBy.map (fun x => match x with | (i, asc) => (outPos q.items i, asc)) = q.orderBy := hsort
+  rw [hsort']
+
+/-- the aggregates whose coded value is the specified one on every input -/
+def simpleItem : Item → Bool
+  | .key _ _ => true
+  | .agg .countStar false _ => true
+  | .agg .count _ _ => true
+  | .agg .collect _ _ => true
+  | _ => false
+
+/-- F, the corollary without residual hypothesis: for every query whose RETURN lists group keys and
+then `count(*)`, `count(x)`, `count(DISTINCT x)`, `collect(x)`, `collect(DISTINCT x)` aggregates (over
+properties or variables), on every list of bindings the result as coded is the result specified. -/
+theorem finishAgg_eq_finishSpec_counts (q : AggQ) (bs : List Binding)
+    (hs : q.items.all simpleItem = true) (hkf : KeysFirst q)
+    (hord : ∀ p ∈ q.orderBy, p.1 < q.items.length) :
+    finishAgg ft q bs = finishSpec ft q bs := by
+  apply finishAgg_eq_finishSpec q bs hkf hord
+  intro k it hit
+  have hmem : it ∈ q.items := by
+    simp only [aggItems, List.mem_filter] at hit
+    exact hit.1
+  have hsi := List.all_eq_true.1 hs it hmem
+  cases it with
+  | key v kk => rfl
+  | agg fn d s =>
+    cases fn <;> cases d <;> simp [simpleItem] at hsi
+    · exact count_star_eq_spec _
+    · exact count_eq_spec _
+    · exact count_distinct_eq_spec _
+    · exact collect_eq_spec _
+    · exact collect_distinct_eq_spec _
+
+/-! ### from the pipeline's bindings to the enumeration's: counts -/
+
+section DedupPerm
+variable {α : Type} [BEq α] [LawfulBEq α]
+
+theorem nodup_dedupFirst (l : List α) : (dedupFirst l).Nodup := by
+  induction l with
+  | nil => simp [dedupFirst]
+  | cons v vs ih =>
+    simp only [dedupFirst, List.nodup_cons, List.mem_filter, bne_self_eq_false, Bool.false_eq_true, and_false,
+      not_false_eq_true, true_and]
+    exact ih.sublist List.filter_sublist
+
+/-- removing duplicates commutes with permuting, up to a permutation -/
+theorem dedupFirst_perm (l1 l2 : List α) (h : l1.Perm l2) : (dedupFirst l1).Perm (dedupFirst l2) := by
+  rw [List.perm_ext_iff_of_nodup (nodup_dedupFirst l1) (nodup_dedupFirst l2)]
+  intro a
+  rw [mem_dedupFirst, mem_dedupFirst]
+  exact h.mem_iff
+
+end DedupPerm
+
+theorem colAgg_countStar_perm (l1 l2 : List Val) (h : l1.Perm l2) :
+    colAgg .count false l1 = colAgg .count false l2 := by
+  rw [count_star_coded, count_star_coded, h.length_eq]
+
+theorem colAgg_count_perm (d : Bool) (l1 l2 : List Val) (h : l1.Perm l2) :
+    colAgg .countNonNull d l1 = colAgg .countNonNull d l2 := by
+  have hf : (nonNull l1).Perm (nonNull l2) := h.filter _
+  cases d
+  · rw [count_coded, count_coded, hf.length_eq]
+  · rw [count_distinct_coded, count_distinct_coded]
+    have := (dedupFirst_perm _ _ hf).length_eq
+    simp only [dedupVals]
+    rw [this]
+
+/-- keys and `count(*)` / `count(x)` / `count(DISTINCT x)` only -/
+def countItem : Item → Bool
+  | .key _ _ => true
+  | .agg .countStar false _ => true
+  | .agg .count _ _ => true
+  | _ => false
+
+theorem countItem_simple (items : List Item) (h : items.all countItem = true) : items.all simpleItem = true := by
+  rw [List.all_eq_true] at h ⊢
+  intro it hit
+  have := h it hit
+  cases it with
+  | key v k => rfl
+  | agg fn d s => cases fn <;> cases d <;> simp [countItem] at this <;> rfl
+
+theorem aggRows_perm_counts (q : AggQ) (b1 b2 : List Binding) (h : b1.Perm b2) (hc : q.items.all countItem = true) :
+    (aggRows ft q b1).Perm (aggRows ft q b2) := by
+  rw [aggRows_cells, aggRows_cells]
+  have hkept : (b1.filter (passes q.preds)).Perm (b2.filter (passes q.preds)) := h.filter _
+  have hkeys : (resultKeys ft q b1).Perm (resultKeys ft q b2) := by
+    unfold resultKeys
+    split
+    · exact List.Perm.refl _
+    · exact dedupFirst_perm _ _ (hkept.map _)
+  have hF : ∀ k, (aggItems q.items).map (codedCell ft (groupOf ft q b1 k)) = (aggItems q.items).map (codedCell ft (groupOf ft q b2 k)) := by
+    intro k
+    apply List.map_congr_left
+    intro it hit
+    have hmem : it ∈ q.items := by
+      simp only [aggItems, List.mem_filter] at hit
+      exact hit.1
+    have hci := List.all_eq_true.1 hc it hmem
+    have hg : (groupOf ft q b1 k).Perm (groupOf ft q b2 k) := hkept.filter _
+    cases it with
+    | key v kk => rfl
+    | agg fn d s =>
+      cases fn <;> cases d <;> simp [countItem] at hci
+      · exact colAgg_countStar_perm _ _ (hg.map _)
+      · exact colAgg_count_perm false _ _ (hg.map _)
+      · exact colAgg_count_perm true _ _ (hg.map _)
+  have : (resultKeys ft q b1).map (fun k => k.map ofVal ++ (aggItems q.items).map (codedCell ft (groupOf ft q b1 k))) =
+      (resultKeys ft q b1).map (fun k => k.map ofVal ++ (aggItems q.items).map (codedCell ft (groupOf ft q b2 k))) := by
+    apply List.map_congr_left
+    intro k _
+    rw [hF k]
+  rw [this]
+  exact hkeys.map _
+
+/-- F, from query to answer: for every graph with unique node ids and every chain pattern, a
+`RETURN keys…, count(*) | count(x) | count(DISTINCT x)…` query (keys first, no ORDER BY / SKIP / LIMIT) executed by the scan /
+expand / aggregate pipeline returns exactly the rows — each the same number of times — that
+grouping and counting the enumeration of all bindings yields. -/
+theorem execAgg_perm_evalAgg_counts (g : Graph) (hu : UniqueIds g) (q : AggQ)
+    (hc : q.items.all countItem = true) (hkf : KeysFirst q)
+    (ho : q.orderBy = []) (hs : q.skip = none) (hl : q.limit = none) :
+    ∃ r s, Pipe.execAgg ft g q = .rows r ∧ Spec.evalAgg ft g q = .rows s ∧ r.Perm s := by
+  have hperm := c08_pipeline_bindings_perm_enumeration g hu q.core
+  have hspec : Spec.evalAgg ft g q = finishAgg ft q (Spec.bindings g q.core) :=
+    (finishAgg_eq_finishSpec_counts q _ (countItem_simple _ hc) hkf (by simp [ho])).symm
+  refine ⟨aggRows ft q (Pipe.bindings g q.core), aggRows ft q (Spec.bindings g q.core), ?_, ?_, aggRows_perm_counts q _ _ hperm hc⟩
+  · simp [Pipe.execAgg, finishAgg, ho, hs, hl, window]
+  · rw [hspec]
+    simp [finishAgg, ho, hs, hl, window]
+
+/-- N: two groups over a three-node graph, `RETURN a.k0, count(a.k1), collect(a.k1)` — hypotheses
+hold, both sides return the same two rows; and a sum query through GQL text = through the enumeration. -/
+theorem agg_query_nonvacuous :
+    let g : Graph := ⟨[⟨0, [], [(0, .int 1), (1, .int 5)]⟩, ⟨1, [], [(0, .int 1)]⟩, ⟨2, [], [(0, .str "x"), (1, .int 2)]⟩], []⟩
+    let q : AggQ := { start := ⟨none⟩, hops := [], preds := [], items := [.key 0 0, .agg .count false (.prop 0 1), .agg .collect false (.prop 0 1)],
+                      orderBy := [(1, false)], skip := none, limit := none }
+    let q2 : AggQ := { q with items := [.key 0 0, .agg .sum false (.prop 0 1)], orderBy := [] }
+    q.items.all simpleItem = true ∧ KeysFirst q ∧
+    Pipe.execAgg [] g q = .rows [[.int 1, .int 1, .list [.int 5]], [.str "x", .int 1, .list [.int 2]]] ∧
+    Spec.evalAgg [] g q = Pipe.execAgg [] g q ∧
+    Pipe.execAgg [] g q2 = .rows [[.int 1, .int 5], [.str "x", .int 2]] ∧ Spec.evalAgg [] g q2 = Pipe.execAgg [] g q2 := by
+  refine ⟨by decide, by decide, by decide, by decide, by decide, by decide⟩
+
+end QueryLevel
+
+/-! ## 5. the Gremlin and GraphQL plans against the enumeration -/
+
+/-- F (after the repair of `values()`): a Gremlin traversal `g.V()…out()/in()/both()…has(…)….values(k)`
+without dedup / order / range / reducing step returns exactly the existing values of the
+enumeration, the same number of times. -/
+theorem gremlin_values_perm (g : Graph) (hu : UniqueIds g) (q : GremQ) (k : Nat)
+    (hp : q.proj = some k) (hd : q.dedup = .none) (ho : q.order = none) (hs : q.skip = none) (hl : q.limit = none)
+    (ha : q.agg = none) :
+    ∃ r s, Pipe.execGremlin g q = .rows r ∧ Spec.evalGremlin g q = .rows s ∧ r.Perm s := by
+  have hperm := c08_pipeline_bindings_perm_enumeration g hu q.core
+  refine ⟨(nonNull (((Pipe.bindings g q.core).filter (passes q.preds)).map (fun b => lastProp b k))).map (fun v => [ofVal v]),
+    (nonNull (((Spec.bindings g q.core).filter (passes q.preds)).map (fun b => lastProp b k))).map (fun v => [ofVal v]), ?_, ?_, ?_⟩
+  · simp [Pipe.execGremlin, gremSteps, hp, hd, ho, hs, hl, ha, window]
+  · simp [Spec.evalGremlin, gremSteps, hp, hd, ho, hs, hl, ha, window]
+  · have hp2 : (((Pipe.bindings g q.core).filter (passes q.preds)).map (fun b => lastProp b k)).Perm
+        (((Spec.bindings g q.core).filter (passes q.preds)).map (fun b => lastProp b k)) := (hperm.filter _).map _
+    exact (hp2.filter _).map _
+
+/-- F: `count()` after the pattern, or after `values(k)`, counts the bindings (the existing values)
+of the enumeration. -/
+theorem gremlin_count_eq (g : Graph) (hu : UniqueIds g) (q : GremQ)
+    (hd : q.dedup = .none) (ho : q.order = none) (hs : q.skip = none) (hl : q.limit = none)
+    (ha : q.agg = some .count) :
+    Pipe.execGremlin g q = Spec.evalGremlin g q := by
+  have hperm := c08_pipeline_bindings_perm_enumeration g hu q.core
+  have hkept := hperm.filter (passes q.preds)
+  have hlen : (gremSteps q (Pipe.bindings g q.core)).length = (gremSteps q (Spec.bindings g q.core)).length := by
+    unfold gremSteps
+    simp only [hd, ho, hs, hl, window]
+    cases q.proj with
+    | none => simpa using hkept.length_eq
+    | some k => exact ((hkept.map (fun b => lastProp b k)).filter (· != Val.null)).length_eq
+  unfold Pipe.execGremlin Spec.evalGremlin
+  simp only [ho, hs, hl, ha, gAggFn]
+  rw [simpleAgg_single, count_star_coded]
+  simp [hlen]
+
+theorem dedupByLast_ids (bs : List Binding) : (dedupByLast bs).map lastId = dedupVals (bs.map lastId) := by
+  induction bs with
+  | nil => rfl
+  | cons b rest ih =>
+    simp only [dedupByLast, List.map_cons, dedupVals, dedupFirst]
+    congr 1
+    rw [show dedupFirst (List.map lastId rest) = List.map lastId (dedupByLast rest) from ih.symm, List.filter_map]
+    rfl
+
+/-- F: `g.V()…out()….dedup()` returns every vertex the pattern reaches exactly once — the distinct
+current vertices of the enumeration. -/
+theorem gremlin_dedup_perm (g : Graph) (hu : UniqueIds g) (q : GremQ)
+    (hp : q.proj = none) (hd : q.dedup = .nodes) (ho : q.order = none) (hs : q.skip = none) (hl : q.limit = none)
+    (ha : q.agg = none) :
+    ∃ r s, Pipe.execGremlin g q = .rows r ∧ Spec.evalGremlin g q = .rows s ∧ r.Perm s ∧ s.Nodup := by
+  have hperm := c08_pipeline_bindings_perm_enumeration g hu q.core
+  have hids : (((Pipe.bindings g q.core).filter (passes q.preds)).map lastId).Perm
+      (((Spec.bindings g q.core).filter (passes q.preds)).map lastId) := (hperm.filter _).map _
+  refine ⟨(dedupVals (((Pipe.bindings g q.core).filter (passes q.preds)).map lastId)).map (fun v => [ofVal v]),
+    (dedupVals (((Spec.bindings g q.core).filter (passes q.preds)).map lastId)).map (fun v => [ofVal v]), ?_, ?_, ?_, ?_⟩
+  · simp [Pipe.execGremlin, gremSteps, hp, hd, ho, hs, hl, ha, window, dedupByLast_ids]
+  · simp [Spec.evalGremlin, gremSteps, hp, hd, ho, hs, hl, ha, window, dedupByLast_ids]
+  · exact (dedupFirst_perm _ _ hids).map _
+  · have hinj : ∀ a b : Val, a ≠ b → [ofVal a] ≠ [ofVal b] := by
+      intro a b hab h
+      apply hab
+      cases a <;> cases b <;> simp_all [ofVal]
+    exact List.Pairwise.map _ hinj (nodup_dedupFirst _)
+
+/-- F: a GraphQL query without `orderBy` / `first` / `skip` returns the rows of the enumeration,
+the same number of times. -/
+theorem graphql_exec_perm_spec (g : Graph) (hu : UniqueIds g) (q : GqlQ)
+    (ho : q.order = none) (hs : q.skip = none) (hf : q.first = none) :
+    ∃ r s, Pipe.execGraphql g q = .rows r ∧ Spec.evalGraphql g q = .rows s ∧ r.Perm s := by
+  have hperm := c08_pipeline_bindings_perm_enumeration g hu q.core
+  refine ⟨((Pipe.bindings g q.core).filter (passes q.preds)).map (projA q.cols),
+    ((Spec.bindings g q.core).filter (passes q.preds)).map (projA q.cols), ?_, ?_, (hperm.filter _).map _⟩
+  · simp [Pipe.execGraphql, gqlFinish, ho, hs, hf, window]
+  · simp [Spec.evalGraphql, gqlFinish, ho, hs, hf, window]
+
+/-- F (after the repair of `orderBy`): as coded and as specified a GraphQL query is the same
+function of the bindings — `orderBy`, `skip`, `first` included; the two differ only in how the
+bindings are found. -/
+theorem graphql_exec_eq_finish (g : Graph) (q : GqlQ) (hw : q.order.isSome ∨ (q.skip = none ∧ q.first = none)) :
+    Pipe.execGraphql g q = .rows (gqlFinish q (Pipe.bindings g q.core)) ∧
+    Spec.evalGraphql g q = .rows (gqlFinish q (Spec.bindings g q.core)) := by
+  refine ⟨rfl, ?_⟩
+  unfold Spec.evalGraphql
+  rcases hw with h | ⟨h1, h2⟩
+  · cases ho : q.order with
+    | none => simp [ho] at h
+    | some x => simp
+  · simp [h1, h2]
+
+/-- N: `{ l0(orderBy: {k9: DESC}) { k9 } }` over two `L0` vertices returns them in descending
+order on both sides (the old plan failed). -/
+theorem graphql_orderby_nonvacuous :
+    let g : Graph := ⟨[⟨0, [0], [(9, .int 0)]⟩, ⟨1, [0], [(9, .int 10)]⟩], []⟩
+    let q : GqlQ := { label := 0, hops := [], preds := [], cols := [(0, 9)], order := some (9, false), skip := none, first := none }
+    Pipe.execGraphql g q = .rows [[.int 10], [.int 0]] ∧ Spec.evalGraphql g q = .rows [[.int 10], [.int 0]] := by
+  refine ⟨by decide, by decide⟩
+
+theorem expandStep_perm_extend (g : Graph) (hu : UniqueIds g) (h : Hop) (a : Node) :
+    (Pipe.expandStep g h [a]).Perm (Spec.extend g [h] [a]) := by
+  have h1 := pipe_perm_spec_rows g hu [h] [[a]] [[a]] (List.Perm.refl _)
+  have h2 := flatMap_extend_eq_specRows g [h] [[a]]
+  rw [← h2] at h1
+  simpa using h1
+
+/-- F: two sibling selections `{ l { k9 t1 { k9 } t2 { k9 } } }` return, for every root vertex,
+every pair of a `t1`-neighbour and a `t2`-neighbour, the same number of times as the enumeration. -/
+theorem graphql_siblings_perm (g : Graph) (hu : UniqueIds g) (label t1 t2 : Nat) :
+    ∃ r s, Pipe.execStar g label t1 t2 = .rows r ∧ Spec.evalStar g label t1 t2 = .rows s ∧ r.Perm s := by
+  refine ⟨_, _, rfl, rfl, ?_⟩
+  apply flatMap_perm_pointwise
+  intro a _
+  have p1 := expandStep_perm_extend g hu ⟨some t1, .out, ⟨none⟩⟩ a
+  have p2 := expandStep_perm_extend g hu ⟨some t2, .out, ⟨none⟩⟩ a
+  refine (flatMap_perm_pointwise _ _ _ (fun ab _ => p2.map _)).trans ?_
+  exact List.Perm.flatMap_right _ p1
+
+theorem graphql_siblings_nonvacuous :
+    let ns : List Node := [⟨0, [0], [(9, .int 0)]⟩, ⟨1, [0], [(9, .int 10)]⟩, ⟨2, [0], [(9, .int 20)]⟩]
+    Pipe.execStar ⟨ns, [⟨0, 0, 1, 0⟩, ⟨1, 1, 2, 1⟩]⟩ 0 0 1 = .rows [] ∧
+    Spec.evalStar ⟨ns, [⟨0, 0, 1, 0⟩, ⟨1, 1, 2, 1⟩]⟩ 0 0 1 = .rows [] ∧
+    Pipe.execStar ⟨ns, [⟨0, 0, 1, 0⟩, ⟨1, 0, 2, 1⟩]⟩ 0 0 1 = .rows [[.int 0, .int 10, .int 20]] ∧
+    Spec.evalStar ⟨ns, [⟨0, 0, 1, 0⟩, ⟨1, 0, 2, 1⟩]⟩ 0 0 1 = .rows [[.int 0, .int 10, .int 20]] := by
+  refine ⟨by decide, by decide, by decide, by decide⟩
+
+theorem gremlin_dedup_nonvacuous :
+    let g : Graph := ⟨[⟨0, [], []⟩, ⟨1, [], []⟩], [⟨0, 0, 1, 0⟩, ⟨1, 0, 1, 0⟩]⟩
+    let q : GremQ := { start := ⟨none⟩, hops := [⟨none, .out, ⟨none⟩⟩], preds := [], order := none, skip := none,
+                       limit := none, proj := none, dedup := .nodes, agg := none }
+    Pipe.execGremlin g q = .rows [[.int 1]] ∧ Spec.evalGremlin g q = .rows [[.int 1]] := by
+  refine ⟨by decide, by decide⟩
+
+/-- N: `g.V().values('k0').count()` over one vertex with and one without `k0` is 1 on both sides. -/
+theorem gremlin_values_nonvacuous :
+    let g : Graph := ⟨[⟨0, [], [(0, .int 1)]⟩, ⟨1, [], []⟩], []⟩
+    let q : GremQ := { start := ⟨none⟩, hops := [], preds := [], order := none, skip := none,
+                       limit := none, proj := some 0, dedup := .none, agg := some .count }
+    Pipe.execGremlin g q = .rows [[.int 1]] ∧ Spec.evalGremlin g q = .rows [[.int 1]] := by
+  refine ⟨by decide, by decide⟩
+
+/-- W: the operator lays the row out keys first whatever RETURN says (open); `count(*)` counts rows. -/
+theorem layout_witness :
+    let g : Graph := ⟨[⟨0, [], [(0, .int 1), (1, .int 7)]⟩, ⟨1, [], [(1, .int 7)]⟩], []⟩
+    let q : AggQ := { start := ⟨none⟩, hops := [], preds := [], items := [.agg .count false (.prop 0 0), .key 0 1],
+                      orderBy := [], skip := none, limit := none }
+    let q2 : AggQ := { q with items := [.agg .countStar false (.node 0)] }
+    Pipe.execAgg [] g q = .rows [[.int 7, .int 1]] ∧ Spec.evalAgg [] g q = .rows [[.int 1, .int 7]] ∧
+    Pipe.execAgg [] g q2 = .rows [[.int 2]] ∧ Spec.evalAgg [] g q2 = .rows [[.int 2]] := by
+  refine ⟨by decide, by decide, by decide, by decide⟩
+
+/-- W: `min` over text that reads as a number and a number: "10" is compared with 9 numerically;
+in the specification's value order every number comes before every string. -/
+theorem min_numeric_text_query_witness :
+    let g : Graph := ⟨[⟨0, [], [(0, .str "10")]⟩, ⟨1, [], [(0, .int 11)]⟩], []⟩
+    let q : AggQ := { start := ⟨none⟩, hops := [], preds := [], items := [.agg .min false (.prop 0 0)],
+                      orderBy := [], skip := none, limit := none }
+    Pipe.execAgg [] g q = .rows [[.str "10"]] ∧ Spec.evalAgg [] g q = .rows [[.int 11]] := by
+  refine ⟨by decide +kernel, by decide⟩
+
+
+/-- N: float group keys: `RETURN a.k3, count(*)` over 2.5, 5, 5.0, 0, 0.0 returns the five values as
+five groups — each kind and bit pattern its own group — as coded and as specified. -/
+theorem float_key_nonvacuous :
+    let ns : List Node := [⟨0, [], []⟩, ⟨1, [], [(3, .int 5)]⟩, ⟨2, [], []⟩, ⟨3, [], [(3, .int 0)]⟩, ⟨4, [], []⟩]
+    let ft : FloatTab := [(0, 3, 0x4004000000000000), (2, 3, 0x4014000000000000), (4, 3, 0)]
+    let q : AggQ := { start := ⟨none⟩, hops := [], preds := [], items := [.key 0 3, .agg .countStar false (.node 0)],
+                      orderBy := [], skip := none, limit := none }
+    Pipe.execAgg ft ⟨ns, []⟩ q = .rows [[.float 0x4004000000000000, .int 1], [.int 5, .int 1], [.float 0x4014000000000000, .int 1], [.int 0, .int 1], [.float 0, .int 1]] ∧
+    Spec.evalAgg ft ⟨ns, []⟩ q = Pipe.execAgg ft ⟨ns, []⟩ q := by
+  refine ⟨by decide, by decide⟩
+
+/-! ## 6. regression: the defects repaired in the code, on the old definitions
+
+The functions below are what the model contained before the repairs; the theorems record how each
+differed from what the model does now. First round: `ValueVector::set_null` validity mask,
+Int64-typed SUM / MIN / MAX columns, Cypher `count(x)` as COUNT(*), DISTINCT on the factorized
+aggregate, sibling hops as a chain, whole-row `dedup()`. Second round: `count(*)` rejected by the
+parsers, SUM switching to a float at an intermediate overflow and AVG adding in floats, MIN / MAX
+depending on the input order, Gremlin `values()` keeping nulls, GraphQL `orderBy` failing. -/
+
+namespace Old
+
+/-- typed vectors recorded only their first null -/
+def loseNullsCol (dflt : AVal) : Bool → List AVal → List AVal
+  | _, [] => []
+  | seen, v :: vs =>
+    if v == .null then (if seen then dflt else .null) :: loseNullsCol dflt true vs
+    else v :: loseNullsCol dflt seen vs
+
+theorem loseNullsCol_witness :
+    loseNullsCol (.int 0) false [.null, .int 3, .null, .null] = [.null, .int 3, .int 0, .int 0] := by decide
+
+/-- SUM / MIN / MAX results were pushed into an Int64 vector -/
+def coerceInt64 (v : AVal) : AVal :=
+  match v with
+  | .int _ => v
+  | .null => v
+  | _ => .int 0
+
+theorem coerceInt64_witness :
+    coerceInt64 (colAgg .min false [.str "b", .str "a"]) = .int 0 ∧ colAgg .min false [.str "b", .str "a"] = .str "a" := by
+  refine ⟨by decide, by decide⟩
+
+/-- Cypher's `count(x)` reached the operator as COUNT(*) -/
+theorem cypher_count_witness :
+    colAgg .count false [.int 1, .null] = .int 2 ∧ colAgg .countNonNull false [.int 1, .null] = .int 1 := by
+  refine ⟨by decide, by decide⟩
+
+/-- sibling hops were executed as the chain a -t1-> b -t2-> c -/
+def execStarChain (g : Graph) (label t1 t2 : Nat) : Res :=
+  let q : Q := { start := ⟨some label⟩, hops := [⟨some t1, .out, ⟨none⟩⟩, ⟨some t2, .out, ⟨none⟩⟩], preds := [],
+                 ret := .props [(0, 9), (1, 9), (2, 9)], distinct := false, orderBy := [], skip := none, limit := none }
+  .rows ((Pipe.bindings g q).map (projA [(0, 9), (1, 9), (2, 9)]))
+
+theorem execStarChain_witness :
+    let ns : List Node := [⟨0, [0], [(9, .int 0)]⟩, ⟨1, [0], [(9, .int 10)]⟩, ⟨2, [0], [(9, .int 20)]⟩]
+    execStarChain ⟨ns, [⟨0, 0, 1, 0⟩, ⟨1, 1, 2, 1⟩]⟩ 0 0 1 = .rows [[.int 0, .int 10, .int 20]] ∧
+    Pipe.execStar ⟨ns, [⟨0, 0, 1, 0⟩, ⟨1, 1, 2, 1⟩]⟩ 0 0 1 = .rows [] := by
+  refine ⟨by decide, by decide⟩
+
+/-- SUM switched to the float accumulator at the first intermediate sum outside `i64` -/
+def sumSwitch (s : Int) : List Int → AVal
+  | [] => .int s
+  | i :: rest => if inI64 (s + i) then sumSwitch (s + i) rest else .float (rest.foldl (fun f j => fadd f (ofInt j)) (fadd (ofInt s) (ofInt i)))
+
+theorem sumSwitch_witness :
+    sumSwitch 0 [2 ^ 63 - 1, 1, -5] = .float 0x43e0000000000000 ∧
+    colAgg .sum false [.int (2 ^ 63 - 1), .int 1, .int (-5)] = .int (2 ^ 63 - 5) := by
+  refine ⟨by decide +kernel, by decide⟩
+
+/-- AVG added every value to a running float -/
+def avgRunning (l : List Int) : Nat := fdiv (l.foldl (fun f j => fadd f (ofInt j)) 0) (ofInt l.length)
+
+theorem avgRunning_witness :
+    avgRunning [2 ^ 53, 1, 1] = 4838367199671702869 ∧
+    colAgg .avg false [.int (2 ^ 53), .int 1, .int 1] = .float 4838367199671702871 := by
+  refine ⟨by decide +kernel, by decide +kernel⟩
+
+/-- `compare_values` left a number and non-numeric text incomparable: the first value won -/
+def cmpAggOld (a b : Val) : Option Ordering :=
+  match a, b with
+  | .int x, .int y => some (compare x y)
+  | .str x, .str y =>
+    (match parseF64 x.toList, parseF64 y.toList with
+     | some fx, some fy => F64.partialCmp fx fy
+     | _, _ => some (compare x y))
+  | .str s, .int i => (parseF64 s.toList).bind (fun fs => F64.partialCmp fs (ofInt i))
+  | .int i, .str s => (parseF64 s.toList).bind (fun fs => F64.partialCmp (ofInt i) fs)
+  | _, _ => none
+
+theorem cmpAggOld_witness :
+    cmpAggOld (.int 1) (.str "a") = none ∧ cmpAggOld (.str "a") (.int 1) = none ∧
+    cmpAgg (.int 1) (.str "a") = some .lt ∧ cmpAgg (.str "a") (.int 1) = some .gt := by
+  refine ⟨by decide, by decide, by decide, by decide⟩
+
+/-- Gremlin `values(k)` kept a null for a vertex without `k` -/
+theorem values_kept_nulls_witness :
+    let vals : List Val := [.int 1, .null]
+    colAgg .count false vals = .int 2 ∧ colAgg .count false (nonNull vals) = .int 1 := by
+  refine ⟨by decide, by decide⟩
+
+/-- `GroupKeyPart` had no float variant: a float key was stored as `Int64(f.to_bits() as i64)` and
+came back out as that integer -/
+def asI64 (bits : Nat) : Int := if bits < 2 ^ 63 then (bits : Int) else (bits : Int) - 2 ^ 64
+
+def keyPart : Val → Val
+  | .float b => .int (asI64 b)
+  | v => v
+
+/-- the keys 2.5, 5, 5.0, 0, 0.0 came out as 4612811918334230528, 5, 4617315517961601024, 0, 0: the
+float 0.0 (all bits zero) fell into the group of the integer 0, -0.0 became `i64::MIN` -/
+theorem float_key_witness :
+    [Val.float 0x4004000000000000, .int 5, .float 0x4014000000000000, .int 0, .float 0, .float 0x8000000000000000].map keyPart =
+      [.int 4612811918334230528, .int 5, .int 4617315517961601024, .int 0, .int 0, .int (-9223372036854775808)] ∧
+    keyOf [0] [Val.float 0] = [.float 0] := by
+  refine ⟨by decide, by decide⟩
+
+end Old
+
 end Grafeo.QueryAgg
